@@ -455,7 +455,7 @@ def run(ctx):
 
     # ---- random walks
     quick = ctx.tier == "quick"
-    n_walks = 220 if quick else 2000
+    n_walks = 220 if quick else 1200
     stats = {}
     trees = []
     lens = {}
